@@ -237,11 +237,15 @@ func main() {
 	}
 	// blob records (both phases): same-size bodies rewritten over and over, read in-process and
 	// over the wire (the answer is serialized after the handler has returned)
+	// they live in a swamp of their own: the Cap predicates and filters of the other flows decode
+	// every body they walk, and bytes that reach a decoder through the unsynchronised Content
+	// pointer (known setter/getter finding) would be paired with their initialisation here
+	const blobSwamp = "c10/r/blobs"
 	bkey := func(i int) string { return fmt.Sprintf("b%02d", i) }
 	blobSet := func(k string) {
 		i := atomic.AddInt64(&version, 1)
 		by := strconv.FormatInt(i, 10)
-		r, err := gw.Set(ctx, &hydrapb.SetRequest{Swamps: []*hydrapb.SwampRequest{{IslandID: 1, SwampName: swampName,
+		r, err := gw.Set(ctx, &hydrapb.SetRequest{Swamps: []*hydrapb.SwampRequest{{IslandID: 1, SwampName: blobSwamp,
 			CreateIfNotExist: true, Overwrite: true, KeyValues: []*hydrapb.KeyValuePair{{Key: k, BytesVal: blobBody(i), UpdatedBy: &by}}}}})
 		if err != nil {
 			say("ERR BlobSet %v", err)
@@ -259,7 +263,7 @@ func main() {
 	for w := 0; w < 2; w++ {
 		w := w
 		spawn("blobget", w, func(rng *common.Rng) {
-			req := &hydrapb.GetRequest{Swamps: []*hydrapb.GetSwamp{{IslandID: 1, SwampName: swampName, Keys: []string{bkey(rng.Intn(3))}}}}
+			req := &hydrapb.GetRequest{Swamps: []*hydrapb.GetSwamp{{IslandID: 1, SwampName: blobSwamp, Keys: []string{bkey(rng.Intn(3))}}}}
 			var r *hydrapb.GetResponse
 			var err error
 			if w == 0 {
